@@ -48,6 +48,7 @@ type input struct {
 	Segs     []int    `json:"segs,omitempty"`
 	Calls    int      `json:"calls,omitempty"`
 	Fuzz     *fuzzIn  `json:"fuzz,omitempty"`
+	Post     *postIn  `json:"post,omitempty"`
 	NoCase   bool     `json:"-"`
 	DHEPrime string   `json:"dheprime,omitempty"`
 	Curves   []uint16 `json:"curves,omitempty"`
@@ -683,6 +684,7 @@ func gen(c *vh.Ctx) {
 	genSKX(c)
 	genCKX(c)
 	genHS(c)
+	genPost(c)
 	genFuzz(c)
 }
 
@@ -700,6 +702,8 @@ func replay(c *vh.Ctx, raw json.RawMessage) {
 		runHS(c, in)
 	case "fuzz":
 		runFuzz(c, *in.Fuzz)
+	case "post":
+		runPost(c, *in.Post)
 	default:
 		panic("unknown replay stream " + in.S)
 	}
